@@ -267,6 +267,20 @@ def match_known(known, prop, unit_res, ob):
 
 # --------------------------------------------------------------------------- witness search
 
+def not_covered(prop):
+    """the clauses of the statement that the claim text of MANIFEST.json lists as NOT covered"""
+    try:
+        import tomllib
+        src = tomllib.load(open(os.path.join(ROOT, "contracts/manifest_src.toml"), "rb"))
+        text = src.get("claimed", {}).get(prop, {}).get("text", "")
+    except Exception:
+        return []
+    if "NOT covered:" not in text:
+        return []
+    tail = text.split("NOT covered:", 1)[1].strip().rstrip(".")
+    return [c.strip() for c in tail.split(";") if c.strip()] if ";" in tail else [c.strip() for c in tail.split(",") if c.strip()]
+
+
 def scratch_copy(repo):
     base = os.environ.get("VERIF_SCRATCH", "/var/tmp")
     d = os.path.join(base, f"verif-scratch-{os.getpid()}-{int(time.time()*1000) % 100000}")
@@ -433,7 +447,8 @@ def main(argv):
             "functions_under_contract": [f for r in results for f in r["functions_under_contract"]],
             "bounded": [b for u in units for b in u.get("bounded", [])],
             "undecided": [{"unit": r["unit"], "reason": r["reason"]} for _, r in undecided],
-            "clauses_not_covered": cfg.get("property", {}).get(prop, {}).get("clauses_not_covered", []),
+            "clauses_not_covered": not_covered(prop),
+            "assumed_contracts": sorted({x for u in units for x in u.get("assumes", [])}),
             "known_findings_matched": [k["_line"] for k, _ in known_hits],
             "samples": [{"name": o["name"], "status": o["status"], "ms": o.get("ms"), "contract": o.get("contract")}
                         for o in (sorted(obs, key=lambda o: not o.get("contract"))[:12])],
